@@ -55,10 +55,6 @@ def model_check(ctx):
                          r["out"], re.M):
         taken[m.group(1)] = int(m.group(3))
     ctx.extra["action_transitions"] = taken
-    from crv.tlc import printed_tuples, tla_unquote
-    import json
-    for payload in printed_tuples(r["out"], "BAND"):               # how much of the argument space is an EITHER band
-        ctx.extra["either_bands"] = json.loads(tla_unquote(payload))
     dead = [a for a in ("Construct", "Add", "Sub", "Mul", "Div", "Round", "Intersect", "AngleShift") if not taken.get(a)]
     if dead:
         from crv.tlc import MachineryError
@@ -67,8 +63,16 @@ def model_check(ctx):
 
 def cases(ctx):
     cs = ctx.gen("MC_Intervals", "GEN_Intervals.cfg")
+    band = {}
     for c in cs:
         c["src"] = "tlc"
+        if c["kind"] == "angle":                   # EITHER band sizes are computed by the spec per case; summed for the evidence
+            tot = {"angle_contains": len(c["ths"]), "angle_contains_interval": len(c["js"]), "angle_overlaps": len(c["js"])}
+            for k, v in c.pop("either").items():
+                b = band.setdefault(k, {"either": 0, "total": 0})
+                b["either"] += v
+                b["total"] += tot[k]
+    ctx.extra["either_bands_grid_arguments"] = band
     rng = ctx.rng
     n = 4000 if ctx.thorough else 400
     for _ in range(n):
